@@ -161,6 +161,7 @@ def run(ctx):
     import props.C07_write as WS
     WS.prove_write_skeleton(ctx)
     WS.prove_single_positioning_write(ctx)
+    WS.prove_legacy_write_skeleton(ctx)
     import props.C12 as L12
     L12.prove_alignment(ctx)          # (an alignment attribute that is written has a value: a None value is a bare attribute name)
     ctx.bounded("documents", "caption sets read from sample documents of six formats and API-built sets (texts, style values, "
